@@ -5,6 +5,7 @@ import (
 	"encoding/base64"
 	"encoding/json"
 	"fmt"
+	"reflect"
 	"testing"
 
 	ct "github.com/google/certificate-transparency-go"
@@ -31,6 +32,7 @@ type JSONCase struct {
 	DS      DSSpec   // signature / tree_head_signature
 	SigTail int      // -1: drop the last byte of the DigitallySigned; k>0: append k bytes
 	Entries []JEntry `json:",omitempty"`
+	Spell   uint32   // seed of the alternative JSON spelling (escapes, white space, member order)
 }
 
 type JEntry struct {
@@ -54,6 +56,7 @@ func genJSONBlob(t *rapid.T, label string, min int, max16 bool) Blob {
 
 func genJSON(t *rapid.T) JSONCase {
 	c := JSONCase{Kind: pickFrom(t, "kind", jsonKinds), HashLen: 32, Seed: rapid.Uint32().Draw(t, "seed")}
+	c.Spell = rapid.Uint32().Draw(t, "spell")
 	c.U1, c.U2 = genU64(t, "u1"), genU64(t, "u2")
 	c.I1 = pickFrom(t, "i1", []int64{0, 1, 1 << 31, 1<<53 + 1, 1<<63 - 1, -1, -(1 << 63)})
 	if pick(t, "i1-any", 2) == 1 {
@@ -115,7 +118,7 @@ func canon(raw []byte) (string, error) {
 }
 
 // roundTrip: message -> library type (into) -> JSON again; the two texts must denote the same value.
-func roundTrip(v *harness.Verdict, kind string, msg map[string]any, into any) (ok bool) {
+func roundTrip(v *harness.Verdict, kind string, msg map[string]any, into any, spell uint32) (ok bool) {
 	raw, err := json.Marshal(msg)
 	if err != nil {
 		v.Failf("harness", "cannot serialise the message map: %v", err)
@@ -136,6 +139,7 @@ func roundTrip(v *harness.Verdict, kind string, msg map[string]any, into any) (o
 		v.Failf("json-lossy:"+kind, "%s message changed on the way through %T: sent %s, got back %s (%v)", kind, into, clip(a), clip(b), err)
 		return false
 	}
+	respellCheck(v, kind, msg, into, reflect.TypeOf(into).Elem(), spell)
 	return true
 }
 
@@ -186,7 +190,7 @@ func checkJSON(t *testing.T, c JSONCase) (v harness.Verdict) {
 	switch c.Kind {
 	case "add-chain-req":
 		var m ct.AddChainRequest
-		if roundTrip(&v, c.Kind, map[string]any{"chain": b64List(list)}, &m) && !eqList(m.Chain, list) {
+		if roundTrip(&v, c.Kind, map[string]any{"chain": b64List(list)}, &m, c.Spell) && !eqList(m.Chain, list) {
 			v.Failf("json-value:add-chain-req", "chain decoded to %d certificates with different bytes (want %d)", len(m.Chain), len(list))
 		}
 		v.NonTrivial = v.NonTrivial || len(list) > 1
@@ -197,7 +201,7 @@ func checkJSON(t *testing.T, c JSONCase) (v harness.Verdict) {
 			extStr = "!" + extStr + "*"
 		}
 		var m ct.AddChainResponse
-		if !roundTrip(&v, c.Kind, map[string]any{"sct_version": num(uint64(c.Ver)), "id": b64(hash), "timestamp": num(c.U1), "extensions": extStr, "signature": b64(dsBytes)}, &m) {
+		if !roundTrip(&v, c.Kind, map[string]any{"sct_version": num(uint64(c.Ver)), "id": b64(hash), "timestamp": num(c.U1), "extensions": extStr, "signature": b64(dsBytes)}, &m, c.Spell) {
 			return v
 		}
 		if uint64(m.SCTVersion) != uint64(c.Ver) || !eqBytes(m.ID, hash) || m.Timestamp != c.U1 || m.Extensions != extStr || !eqBytes(m.Signature, dsBytes) {
@@ -225,7 +229,7 @@ func checkJSON(t *testing.T, c JSONCase) (v harness.Verdict) {
 
 	case "get-sth-rsp":
 		var m ct.GetSTHResponse
-		if !roundTrip(&v, c.Kind, map[string]any{"tree_size": num(c.U2), "timestamp": num(c.U1), "sha256_root_hash": b64(hash), "tree_head_signature": b64(dsBytes)}, &m) {
+		if !roundTrip(&v, c.Kind, map[string]any{"tree_size": num(c.U2), "timestamp": num(c.U1), "sha256_root_hash": b64(hash), "tree_head_signature": b64(dsBytes)}, &m, c.Spell) {
 			return v
 		}
 		if m.TreeSize != c.U2 || m.Timestamp != c.U1 || !eqBytes(m.SHA256RootHash, hash) || !eqBytes(m.TreeHeadSignature, dsBytes) {
@@ -260,9 +264,10 @@ func checkJSON(t *testing.T, c JSONCase) (v harness.Verdict) {
 			if err := json.Unmarshal(raw, &m); err == nil {
 				v.Failf("sth-json-accepts-invalid", "json.Unmarshal into SignedTreeHead accepted sha256_root_hash[%d], signature valid=%v", c.HashLen, dsValid)
 			}
+			respellCheck(&v, c.Kind, msg, nil, reflect.TypeOf(m), c.Spell)
 			return v
 		}
-		if !roundTrip(&v, c.Kind, msg, &m) {
+		if !roundTrip(&v, c.Kind, msg, &m, c.Spell) {
 			return v
 		}
 		var root [32]byte
@@ -273,14 +278,14 @@ func checkJSON(t *testing.T, c JSONCase) (v harness.Verdict) {
 
 	case "consistency":
 		var m ct.GetSTHConsistencyResponse
-		if roundTrip(&v, c.Kind, map[string]any{"consistency": b64List(list)}, &m) && !eqList(m.Consistency, list) {
+		if roundTrip(&v, c.Kind, map[string]any{"consistency": b64List(list)}, &m, c.Spell) && !eqList(m.Consistency, list) {
 			v.Failf("json-value:consistency", "consistency path decoded differently")
 		}
 		v.NonTrivial = v.NonTrivial || len(list) > 1
 
 	case "proof-by-hash":
 		var m ct.GetProofByHashResponse
-		if roundTrip(&v, c.Kind, map[string]any{"leaf_index": inum(c.I1), "audit_path": b64List(list)}, &m) && (m.LeafIndex != c.I1 || !eqList(m.AuditPath, list)) {
+		if roundTrip(&v, c.Kind, map[string]any{"leaf_index": inum(c.I1), "audit_path": b64List(list)}, &m, c.Spell) && (m.LeafIndex != c.I1 || !eqList(m.AuditPath, list)) {
 			v.Failf("json-value:proof-by-hash", "leaf_index %d (want %d) or audit path differ", m.LeafIndex, c.I1)
 		}
 		v.NonTrivial = v.NonTrivial || c.I1 >= 1<<53 || c.I1 < 0
@@ -291,7 +296,7 @@ func checkJSON(t *testing.T, c JSONCase) (v harness.Verdict) {
 			certs[i] = b64(b)
 		}
 		var m ct.GetRootsResponse
-		if roundTrip(&v, c.Kind, map[string]any{"certificates": certs}, &m) {
+		if roundTrip(&v, c.Kind, map[string]any{"certificates": certs}, &m, c.Spell) {
 			if len(m.Certificates) != len(list) {
 				v.Failf("json-value:get-roots", "%d certificates, want %d", len(m.Certificates), len(list))
 			} else {
@@ -340,14 +345,14 @@ func checkJSON(t *testing.T, c JSONCase) (v harness.Verdict) {
 				es[i] = map[string]any{"leaf_input": b64(b.leaf), "extra_data": b64(b.extra)}
 			}
 			var m ct.GetEntriesResponse
-			if !roundTrip(&v, c.Kind, map[string]any{"entries": es}, &m) {
+			if !roundTrip(&v, c.Kind, map[string]any{"entries": es}, &m, c.Spell) {
 				return v
 			}
 			got = m.Entries
 			v.NonTrivial = v.NonTrivial || len(bs) > 1
 		} else {
 			var m ct.GetEntryAndProofResponse
-			if !roundTrip(&v, c.Kind, map[string]any{"leaf_input": b64(bs[0].leaf), "extra_data": b64(bs[0].extra), "audit_path": b64List(list)}, &m) {
+			if !roundTrip(&v, c.Kind, map[string]any{"leaf_input": b64(bs[0].leaf), "extra_data": b64(bs[0].extra), "audit_path": b64List(list)}, &m, c.Spell) {
 				return v
 			}
 			if !eqList(m.AuditPath, list) {
@@ -384,6 +389,6 @@ func checkJSON(t *testing.T, c JSONCase) (v harness.Verdict) {
 // JSONMsg is the API-message half of C04.
 var JSONMsg = harness.Define(harness.Opts{
 	Name:  "json",
-	Rule:  "one RFC 6962 s4 message per case (add-chain request / response, get-sth response, SignedTreeHead, consistency, proof-by-hash, get-entries, get-roots, get-entry-and-proof) built as map[string]any with hand-made base64 fields -> encoding/json -> library type -> ToSignedCertificateTimestamp / ToSignedTreeHead / RawLogEntryFromLeaf (compared with internal/rfc6962) -> encoding/json again (same JSON value). 64-bit numbers at 2^32/2^53/2^63/2^64 edges, blobs at the RFC length boundaries, 30% of the convertible messages carry a wrong hash length, a DigitallySigned with a missing / extra byte, or non-base64 extensions and must be refused by the conversion. Non-trivial: a 64-bit operand >= 2^53, a boundary-sized blob, a defect, or more than one list element",
+	Rule:  "one RFC 6962 s4 message per case (add-chain request / response, get-sth response, SignedTreeHead, consistency, proof-by-hash, get-entries, get-roots, get-entry-and-proof) built as map[string]any with hand-made base64 fields -> encoding/json -> library type -> ToSignedCertificateTimestamp / ToSignedTreeHead / RawLogEntryFromLeaf (compared with internal/rfc6962) -> encoding/json again (same JSON value); then the same message in another legal spelling written by the check's own JSON writer (member order shuffled, white space between tokens, characters of every string value and member name as \\uXXXX in either hex case at rate 1/2, 1/3, 1/7 or 1/40, '/' as \\/ half of the time) must decode to the identical library value (or be refused like the plain text). 64-bit numbers at 2^32/2^53/2^63/2^64 edges, blobs at the RFC length boundaries, 30% of the convertible messages carry a wrong hash length, a DigitallySigned with a missing / extra byte, or non-base64 extensions and must be refused by the conversion. Non-trivial: a 64-bit operand >= 2^53, a boundary-sized blob, a defect, or more than one list element",
 	Quick: 3000, Thorough: 20000, MaxSample: 700,
 }, genJSON, checkJSON)
